@@ -426,14 +426,35 @@ class LenAnalysis:
             return False, f'loop variable `{norm(var)}` is not a plain name/attribute'
         bk = self._key(bound)
         n_paths = 0
-        stack: List[Tuple[Node, State, Iv, Dict[int, int], List[str]]] = []
+        # `rel`: locals known to hold (value of the loop variable at the loop head) + [lo, hi]; the loop variable itself is `delta`
+        stack: List[Tuple[Node, State, Iv, Dict[int, int], List[str], Dict[str, Iv]]] = []
         ts, _ = self.cond(t, State())
         for s, lab in head.succ:
             if lab is True:
                 for st0 in ts:
-                    stack.append((s, st0, (0, 0), {}, []))
+                    stack.append((s, st0, (0, 0), {}, [], {}))
+
+        def rel_of(e: ast.AST, st_: State, delta_: Iv, rel_: Dict[str, Iv]) -> Optional[Iv]:
+            """`e` as (loop variable at the head) + interval, or None."""
+            k_ = self._key(e)
+            if k_ == vk:
+                return delta_
+            if k_ is not None and k_ in rel_:
+                return rel_[k_]
+            if isinstance(e, ast.BinOp) and isinstance(e.op, (ast.Add, ast.Sub)):
+                l_ = rel_of(e.left, st_, delta_, rel_)
+                if l_ is not None:
+                    d_ = self.int_of(e.right, st_)
+                    return (l_[0] + d_[0], l_[1] + d_[1]) if isinstance(e.op, ast.Add) else (l_[0] - d_[1], l_[1] - d_[0])
+                if isinstance(e.op, ast.Add):
+                    r_ = rel_of(e.right, st_, delta_, rel_)
+                    if r_ is not None:
+                        d_ = self.int_of(e.left, st_)
+                        return (r_[0] + d_[0], r_[1] + d_[1])
+            return None
+
         while stack:
-            node, st, delta, used, trail = stack.pop()
+            node, st, delta, used, trail, rel = stack.pop()
             if node is head:
                 n_paths += 1
                 if delta[0] < 1:
@@ -460,7 +481,23 @@ class LenAnalysis:
                     else:
                         return False, f'`{norm(a)}` is not an additive update'
                 elif isinstance(a, (ast.Assign, ast.AnnAssign)) and any(self._key(tg) in (vk, bk) for tg in (a.targets if isinstance(a, ast.Assign) else [a.target])):
-                    return False, f'`{norm(a)}` reassigns the loop variable or its bound'
+                    # `v = <v at the head, or a local derived from it> + k` is an additive update too
+                    tgs = a.targets if isinstance(a, ast.Assign) else [a.target]
+                    nd = rel_of(a.value, st, delta, rel) if len(tgs) == 1 and self._key(tgs[0]) == vk and a.value is not None else None
+                    if nd is None:
+                        return False, f'`{norm(a)}` reassigns the loop variable or its bound'
+                    delta = nd
+                elif isinstance(a, (ast.Assign, ast.AnnAssign)) and a.value is not None:
+                    tgs = a.targets if isinstance(a, ast.Assign) else [a.target]
+                    rel = dict(rel)
+                    for tg in tgs:
+                        for nm_ in ast.walk(tg):
+                            if isinstance(nm_, ast.Name) and nm_.id in rel:
+                                del rel[nm_.id]
+                    if len(tgs) == 1 and isinstance(tgs[0], ast.Name):
+                        nd = rel_of(a.value, st, delta, rel)
+                        if nd is not None:
+                            rel[tgs[0].id] = nd
                 elif isinstance(a, ast.AugAssign) and bk is not None and self._key(a.target) == bk:
                     return False, f'`{norm(a)}` moves the bound'
                 self.assign(a, st)
@@ -482,7 +519,7 @@ class LenAnalysis:
                     u = dict(used)
                     u[node.id] = 1
                 for ns in nxt:
-                    stack.append((s, ns.copy(), delta, u, trail))
+                    stack.append((s, ns.copy(), delta, u, trail, rel))
         if n_paths == 0:
             return True, 'no path returns to the loop head (the body always leaves the loop)'
         return True, f'{n_paths} path(s) around the loop, each advances `{vk}` by at least 1'
